@@ -238,6 +238,55 @@ fn pick_index(rng: &mut Rng, len: usize, cap: usize, oob: bool) -> usize {
 pub struct Gen<'a> {
     pub rng: &'a mut Rng,
     pub cfg: &'a RunCfg,
+    /// scripted prefix (a scenario that random choice would need many specific steps to reach)
+    pub script: &'a mut Vec<J>,
+}
+
+/// Scenario prefixes: a run may start with a short scripted history that sets up a
+/// configuration random choice reaches too rarely, and continues randomly from there.
+/// Handles are named after the step that creates them (step k -> handle 4k).
+pub fn draw_script(rng: &mut Rng, cfg: &RunCfg, profile: &str) -> Vec<J> {
+    let p = if profile == "mut" { 5 } else { 10 };
+    if !rng.chance(1, p) {
+        return Vec::new();
+    }
+    let mut v: Vec<J> = Vec::new();
+    match rng.below(3) {
+        // two independent buffers, each already split (shared representation), the tail piece of
+        // the first directly followed in memory by the head piece of the second (packed placement)
+        0 if cfg.parity == alloc::Parity::Packed => {
+            let n1 = *rng.pick(&[8usize, 16, 33, 64, 200]);
+            let n2 = *rng.pick(&[8usize, 16, 33, 64, 200]);
+            v.push(J::obj().set("op", "m_from_slice").set("seed", rng.next_u64()).set("n", n1));
+            v.push(J::obj().set("op", "m_from_slice").set("seed", rng.next_u64()).set("n", n2));
+            v.push(J::obj().set("op", "m_split_to").set("h", 0usize).set("at", rng.range(1, n1 - 1)));
+            v.push(J::obj().set("op", "m_split_off").set("h", 4usize).set("at", rng.range(1, n2 - 1)));
+            if rng.chance(1, 2) {
+                v.push(J::obj().set("op", "drop").set("h", 8usize));
+            }
+            v.push(J::obj().set("op", "unsplit").set("h", 0usize).set("o", 4usize));
+        }
+        // a promoted, again unique Bytes with a front offset, then converted
+        1 => {
+            let n = *rng.pick(&[16usize, 64, 300, 4096]);
+            v.push(J::obj().set("op", if rng.chance(1, 2) { "b_from_box" } else { "b_from_vec" }).set("seed", rng.next_u64()).set("n", n).set("extra", *rng.pick(&[0usize, 0, 9])));
+            v.push(J::obj().set("op", "clone").set("h", 0usize));
+            v.push(J::obj().set("op", "advance").set("h", 0usize).set("n", rng.range(1, n - 1)));
+            v.push(J::obj().set("op", "drop").set("h", 4usize));
+            v.push(J::obj().set("op", *rng.pick(&["try_into_mut", "b_into_mut", "b_into_vec"])).set("h", 0usize));
+        }
+        // a frozen piece of a split BytesMut emptied in place while a sibling lives, then converted
+        _ => {
+            let n = *rng.pick(&[16usize, 64, 300]);
+            v.push(J::obj().set("op", "m_from_slice").set("seed", rng.next_u64()).set("n", n));
+            v.push(J::obj().set("op", "m_split_to").set("h", 0usize).set("at", rng.range(1, n - 1)));
+            v.push(J::obj().set("op", "freeze").set("h", 4usize));
+            v.push(J::obj().set("op", *rng.pick(&["b_clear", "b_truncate", "advance"])).set("h", 8usize).set("n", if rng.chance(1, 2) { 0usize } else { n }));
+            v.push(J::obj().set("op", *rng.pick(&["b_into_mut", "b_into_vec", "try_into_mut"])).set("h", 8usize));
+            v.push(J::obj().set("op", "m_clear").set("h", 0usize));
+        }
+    }
+    v
 }
 
 impl<'a> Gen<'a> {
@@ -253,6 +302,9 @@ impl<'a> Gen<'a> {
     }
 
     pub fn next(&mut self, w: &World, uid: usize) -> J {
+        if !self.script.is_empty() {
+            return self.script.remove(0).set("i", uid);
+        }
         let oob = self.rng.chance(self.cfg.oob_pm, 1000);
         let mut weights = self.cfg.weights.clone();
         if w.slots.len() >= self.cfg.max_live {
@@ -486,7 +538,14 @@ impl<'a> Gen<'a> {
             }
             "extend" => {
                 let h = *rng.pick(ms.get(..).filter(|v| !v.is_empty())?);
-                o.set("h", h).set("kind", *rng.pick(&["u8", "ref", "bytes"])).set("seed", rng.next_u64()).set("n", pick_size(rng, cfg).min(600))
+                let kind = *rng.pick(&["u8", "ref", "bytes", "u8", "faulty"]);
+                let n = pick_size(rng, cfg).min(600);
+                let mut o = o.set("h", h).set("kind", kind).set("seed", rng.next_u64()).set("n", n);
+                if kind == "faulty" {
+                    // a user iterator that panics at item k and/or misreports its size_hint
+                    o = o.set("k", rng.range(0, n)).set("hint", rng.below(4)).set("byref", rng.chance(1, 3));
+                }
+                o
             }
             "write_str" => {
                 let h = *rng.pick(ms.get(..).filter(|v| !v.is_empty())?);
@@ -670,6 +729,8 @@ fn any_alloc_events(ev: &[Event]) -> usize {
 }
 
 pub struct StepOut {
+    /// the panic came from a user-supplied iterator: the call may have taken partial effect
+    pub partial: bool,
     /// "ok" | "panic" | "skip"
     pub outcome: &'static str,
     pub ret: u64,
@@ -686,8 +747,8 @@ pub fn exec(w: &mut World, op: &J) -> StepOut {
     alloc::set_op(uid as u64);
     alloc::clear_events();
     let before = w.views();
-    let skip = StepOut { outcome: "skip", ret: 0, scribbled: None, oob: false };
-    let mut so = StepOut { outcome: "ok", ret: 0, scribbled: None, oob: false };
+    let skip = StepOut { partial: false, outcome: "skip", ret: 0, scribbled: None, oob: false };
+    let mut so = StepOut { partial: false, outcome: "ok", ret: 0, scribbled: None, oob: false };
 
     macro_rules! need {
         ($pred:ident) => {
@@ -1121,6 +1182,7 @@ pub fn exec(w: &mut World, op: &J) -> StepOut {
             };
             let n = op.us("n");
             let len = s.model.len();
+            let v0 = s.view();
             let exp = if n <= len { Exp::Ok } else { Exp::Panic };
             let out = match &mut s.real {
                 Real::B(x) => run(|| x.copy_to_bytes(n)),
@@ -1132,7 +1194,10 @@ pub fn exec(w: &mut World, op: &J) -> StepOut {
                 if exp == Exp::Ok {
                     let tail = s.model.split_off(n);
                     let head = std::mem::replace(&mut s.model, tail);
-                    let origin = if s.is_b() { s.origin } else { Origin::Heap };
+                    // copy_to_bytes may share or copy (it is not in C07's list): the result keeps
+                    // the source's lineage only if it still points at the source's bytes
+                    let shares = r.len() > 0 && r.as_ptr() as usize == v0.ptr;
+                    let origin = if s.is_b() && (shares || r.is_empty()) { s.origin } else { Origin::Heap };
                     w.slots.insert(nid(uid, 0), Slot { real: Real::B(r), model: head, origin });
                 } else {
                     std::mem::forget(r);
@@ -1505,6 +1570,91 @@ pub fn exec(w: &mut World, op: &J) -> StepOut {
             }
             w.slots.insert(h, s);
         }
+        "extend" if op.str("kind") == Some("faulty") => {
+            // Extend<u8> / Extend<&u8> with a user iterator that panics at item k and/or lies in
+            // size_hint. The call may legitimately have appended any prefix of the items before the
+            // panic escapes; the handle must stay a valid, in-bounds handle (checked by the step
+            // invariants) and storage must still balance at the end.
+            need!(is_m);
+            let n = op.us("n").min(1 << 16);
+            let k = op.us("k").min(n);
+            let items = content(op.u64("seed"), n);
+            let hint = match op.us("hint") {
+                0 => (n, Some(n)),
+                1 => (n / 2, Some(n / 2)),
+                2 => (0, None),
+                _ => (n + 7, Some(n + 7)),
+            };
+            struct Faulty {
+                items: Vec<u8>,
+                pos: usize,
+                k: usize,
+                hint: (usize, Option<usize>),
+            }
+            impl Iterator for Faulty {
+                type Item = u8;
+                fn next(&mut self) -> Option<u8> {
+                    if self.pos == self.k && self.k < self.items.len() {
+                        panic!("Faulty iterator: told to panic at item {}", self.k);
+                    }
+                    let r = self.items.get(self.pos).copied();
+                    self.pos += 1;
+                    r
+                }
+                fn size_hint(&self) -> (usize, Option<usize>) {
+                    self.hint
+                }
+            }
+            let mut s = w.slots.remove(&h).unwrap();
+            let v0 = s.view();
+            let will_panic = k < n;
+            let it = Faulty { items: items.clone(), pos: 0, k, hint };
+            let byref = op.boolean("byref");
+            let out = match &mut s.real {
+                Real::M(m) => run(|| {
+                    if byref {
+                        // the &u8 flavour forwards to the u8 one
+                        let tmp: Vec<u8> = it.items[..it.k.min(it.items.len())].to_vec();
+                        m.extend(tmp.iter());
+                        if it.k < it.items.len() {
+                            panic!("Faulty iterator: told to panic at item {}", it.k);
+                        }
+                    } else {
+                        m.extend(it)
+                    }
+                }),
+                _ => unreachable!(),
+            };
+            w.probes.hit("faulty_iterator");
+            match out {
+                Out::Ok(()) => {
+                    if will_panic {
+                        w.v(&["C01"], "iterator-panic-swallowed", format!("h{}.extend(faulty iterator): returned although the iterator panicked at item {}", h, k));
+                    }
+                    s.model.extend_from_slice(&items);
+                }
+                Out::Panic(_) => {
+                    so.outcome = "panic";
+                    so.partial = true;
+                    w.probes.hit("iterator_panic");
+                    // accept any prefix of the items; the range check comes first
+                    let v1 = s.view();
+                    let blk_ok = v1.cap == 0 || alloc::lookup(v1.ptr).map(|b| b.live && v1.ptr + v1.cap <= b.user + b.size).unwrap_or(!alloc::ENABLED);
+                    if blk_ok && v1.len >= v0.len && v1.len <= v0.len + k && v1.len <= v1.cap {
+                        let got: Vec<u8> = match &s.real {
+                            Real::M(m) => m[..].to_vec(),
+                            _ => unreachable!(),
+                        };
+                        let j = v1.len - v0.len;
+                        if got[..v0.len] == s.model[..] && got[v0.len..] == items[..j] {
+                            s.model.extend_from_slice(&items[..j]);
+                        }
+                    }
+                    // otherwise the step invariants report the broken handle
+                }
+            }
+            w.slots.insert(h, s);
+        }
         "extend_from_slice" | "put_int" | "put_bytes" | "put_buf" | "extend" | "write_str" => {
             need!(is_m);
             // what gets appended
@@ -1770,7 +1920,7 @@ pub fn exec(w: &mut World, op: &J) -> StepOut {
     }
 
     // C13: after a panic every handle is exactly as before
-    if so.outcome == "panic" {
+    if so.outcome == "panic" && !so.partial {
         let after = w.views();
         for (id, v) in &before {
             match after.get(id) {
